@@ -4,7 +4,7 @@
    restore the scope stack; is the root of `x.f` looked up on the scope stack before the namespace table. *)
 From Coq Require Import String List NArith ZArith Bool.
 From Sylt Require Import Syntax.Resolved Resolve.PAst Resolve.Resolver Resolve.ResolveSpec Resolve.SpecProofs
-     Resolve.RefineRefuted Resolve.RefineProofs Resolve.Alpha Resolve.AlphaProofs Resolve.AlphaExample Gen.GenResolve.
+     Resolve.RefineRefuted Resolve.Wf Resolve.NsShadow Resolve.RefineProofs Resolve.NsShadowProofs Resolve.Alpha Resolve.AlphaProofs Resolve.AlphaExample Gen.GenResolve.
 Import ListNotations.
 Local Open Scope string_scope.
 
@@ -56,6 +56,39 @@ Theorem C09_resolve_refines_restored :
   forall ast, wf_ast ast = true -> resolve (mkFlags true true true true) ast = resolve_spec ast.
 Proof. exact resolve_refines. Qed.
 
+(* THE CODE AS IT IS after the scope fixes has the three restore flags on and still consults the
+   namespace table first for the root of `x.f` (C09_flags).  Two theorems cover it:
+
+   (1) with the three restore flags on, the code IS the scope-list specification taken with the same
+       choice for `x.f` (`resolve_spec_g lf`; lf = false is `resolve_spec_nsfirst`, the specification with
+       that one quirk), on every well-formed AST; *)
+Theorem C09_resolve_refines_nsfirst :
+  restores fl = true ->
+  forall ast, wf_ast ast = true -> resolve fl ast = resolve_spec_g (access_local_first fl) ast.
+Proof. exact (resolve_refines_restores fl). Qed.
+
+(* (2) the quirk is invisible on every program that satisfies the computable condition `no_ns_shadow`:
+       no binder (parameter, local definition, case binding, `self`) has the name of the root x of an
+       access chain `x.f...` written in a file in which x is a namespace name after the import passes. *)
+Theorem C09_nsfirst_is_lexical :
+  forall ast, no_ns_shadow ast = true -> resolve_spec_nsfirst ast = resolve_spec ast.
+Proof. exact nsfirst_is_lexical. Qed.
+
+(* Hence: names resolve lexically (the documented specification, scope before namespace) on every
+   well-formed program without such a shadowing. *)
+Theorem C09_resolve_refines_modulo_ns :
+  restores fl = true ->
+  forall ast, wf_ast ast = true -> no_ns_shadow ast = true -> resolve fl ast = resolve_spec ast.
+Proof. exact (resolve_refines_modulo_ns fl). Qed.
+
+(* non-vacuity: the hypotheses hold of a two-file program that imports a namespace b, reads `b.value`
+   through it and `q.value` through a parameter q (accepted, and equal to the specification); they fail
+   -- as they must -- when the parameter is itself called b. *)
+Example C09_modulo_ns_example :
+  wf_ast w_nsfield_ok = true /\ no_ns_shadow w_nsfield_ok = true /\ is_ok (resolve_spec w_nsfield_ok) = true
+  /\ no_ns_shadow ex_left = true /\ wf_ast w_nsfield = true /\ no_ns_shadow w_nsfield = false.
+Proof. vm_compute. repeat split. Qed.
+
 (* non-vacuity: a well-formed program that both accept *)
 Example C09_resolve_refines_example :
   wf_ast ex_left = true /\ is_ok (resolve_spec ex_left) = true
@@ -103,6 +136,9 @@ Print Assumptions C09_spec_global.
 Print Assumptions C09_resolve_refines_refuted.
 Print Assumptions C09_resolve_refines.
 Print Assumptions C09_resolve_refines_restored.
+Print Assumptions C09_resolve_refines_nsfirst.
+Print Assumptions C09_nsfirst_is_lexical.
+Print Assumptions C09_resolve_refines_modulo_ns.
 Print Assumptions C09_alpha.
 Print Assumptions C09_alpha_example.
 Print Assumptions C09_alpha_lexical_refuted.
